@@ -168,7 +168,7 @@ theorem C08_callbacks (cfg : Heapq.Cfg) (ok : CfgOK cfg) (sizeOf : Nat → Int) 
     List.append_nil _
   rw [← h2]; exact perm
 
-/-! ## 4. the recorded defect F2 -/
+/-! ## 3. the recorded defect F2 -/
 
 /-- corpus/C08/F2.ops (limit 8, unit sizes) -/
 def f2ops : List Op :=
@@ -187,7 +187,7 @@ theorem C08_F2_witness :
     runMin pinned (fun _ => 1) (empty 8) f2ops = false := by
   decide
 
-/-! ## 3. conditional refinement of the reference LRU cache -/
+/-! ## 4. conditional refinement of the reference LRU cache -/
 
 /-- **C08, one step, conditional.**  From a state satisfying the invariant and related to a reference
 state (`Abs`: the recency list is the heap's entries in timestamp order), if every `Evict` executed by
@@ -224,6 +224,34 @@ theorem C08_refines_if_evict_min (cfg : Heapq.Cfg) (ok : CfgOK cfg) (sizeOf : Na
   obtain ⟨h1, h2, h3, h4⟩ :=
     run_refines ok hs ops (inv_empty sizeOf limit hl) abs0 hmin (.refl _)
   exact ⟨h1, h2, h3, fun hn => h4 hn rfl⟩
+
+/-- **C08, full theorem from a heap-order invariant.**  If the heap configuration admits an invariant `P`
+of the heap that is kept by `pop` (at a valid offset) and by `add` of an element newer than all others,
+and that puts a minimal timestamp at the root (`HeapInv`: exactly what a heap-order theorem for the
+configuration — C05 — provides), then the hypothesis of `C08_refines_if_evict_min` holds on every history,
+i.e. the cache model refines the reference LRU cache unconditionally.  No instance is proved here (the
+pinned configuration has none: `C08_pinned_has_no_heap_invariant`; a configuration of the class that has
+one is the degenerate "sorted array" `parent i = i - 1, left i = i + 1, right lc = lc` — remark, not
+proved); the theorem is the bridge a repaired heap has to cross. -/
+theorem C08_full_if_heap_invariant (cfg : Heapq.Cfg) (ok : CfgOK cfg) (P : Heapq.H Entry → Prop)
+    (hi : HeapInv cfg P) (sizeOf : Nat → Int) (hs : ∀ v, 0 ≤ sizeOf v) (limit : Int) (hl : 0 < limit)
+    (ops : List Op) :
+    outs cfg sizeOf (empty limit) ops = outsRef sizeOf { limit := limit } ops ∧
+    Abs (exec cfg sizeOf (empty limit) ops) (execRef sizeOf { limit := limit } ops) ∧
+    (exec cfg sizeOf (empty limit) ops).evicted.Perm (execRef sizeOf { limit := limit } ops).evicted ∧
+    (Op.clear ∉ ops →
+      (exec cfg sizeOf (empty limit) ops).evicted = (execRef sizeOf { limit := limit } ops).evicted) :=
+  C08_refines_if_evict_min cfg ok sizeOf hs limit hl ops
+    (runMin_of_heapInv ok hi hs ops (inv_empty sizeOf limit hl) hi.nil)
+
+/-- consequence of F2: the pinned heap has no invariant that keeps the minimum at the root -/
+theorem C08_pinned_has_no_heap_invariant : ¬ ∃ P, HeapInv pinned P := by
+  rintro ⟨P, hi⟩
+  have h := runMin_of_heapInv pinned_ok hi (sizeOf := fun _ => 1) (fun _ => by decide) f2ops
+    (inv_empty _ 8 (by decide)) hi.nil
+  have h' : runMin pinned (fun _ => 1) (empty 8) f2ops = true := h
+  rw [C08_F2_witness.2.2.2] at h'
+  cases h'
 
 /- The unconditional statement — NOT provable for the pinned heap (`C08_F2_witness` refutes it), and the
 obligation that a repaired heap configuration has to discharge (it amounts to `runMin … = true` for every
